@@ -28,7 +28,7 @@ func newReduceMax() ops.Operator {
 // Init initializes the reduceMax operator.
 func (r *ReduceMax) Init(n *onnx.NodeProto) error {
 	attributes := n.GetAttribute()
-	if len(attributes) == 0 || len(attributes) > MaxReduceMaxAttributes {
+	if len(attributes) > MaxReduceMaxAttributes {
 		return ops.ErrInvalidOptionalAttributeCount(MinReduceMaxAttributes, MaxReduceMaxAttributes, len(attributes), r)
 	}
 
@@ -58,6 +58,13 @@ func (r *ReduceMax) Apply(inputs []tensor.Tensor) ([]tensor.Tensor, error) {
 	axes := make([]int, len(r.axes))
 	for i, axis := range r.axes {
 		axes[i] = ops.ConvertNegativeAxis(axis, len(input.Shape()))
+	}
+
+	// Without axes, all dimensions are reduced.
+	if len(axes) == 0 {
+		for axis := range input.Shape() {
+			axes = append(axes, axis)
+		}
 	}
 
 	out, err := input.Max(axes...)
